@@ -665,3 +665,23 @@ func withAnon(fn *ssa.Function) []*ssa.Function {
 	}
 	return out
 }
+
+// InstrDominates reports whether instruction a is executed before b on every path reaching b
+// (a's block strictly dominates b's, or both share a block and a comes first).
+func InstrDominates(a, b ssa.Instruction) bool {
+	if a == nil || b == nil || a.Block() == nil || b.Block() == nil {
+		return false
+	}
+	if a.Block() != b.Block() {
+		return a.Block().Dominates(b.Block())
+	}
+	for _, in := range a.Block().Instrs {
+		if in == a {
+			return true
+		}
+		if in == b {
+			return false
+		}
+	}
+	return false
+}
